@@ -78,11 +78,13 @@ def mul (m a b : Int) : Int := quo (mulI a b) m
 def div (m a b : Int) : Option Int := if b = 0 then none else some (quo (mulI a m) b)
 /-- `f / mult * mult` -/
 def trunc (m a : Int) : Int := mulI (quo a m) m
-/-- `f - (value.Mul(f.Div(value).Trunc()))` -/
-def mod (m a b : Int) : Option Int :=
-  match div m a b with
-  | none => none
-  | some q => some (sub a (mul m b (trunc m q)))
+/-- Go `a % b` on `int64` for `b ≠ 0`: the truncated remainder (sign of the dividend); `MinInt64 % -1 = 0`, as the
+    language defines it, is that remainder as well -/
+def rem (a b : Int) : Int := wrap64 (Int.tmod a b)
+/-- `return f % value` (since the fix "Mod computes the remainder directly"; before: `f - value.Mul(f.Div(value).Trunc())`);
+    `none` = integer-divide-by-zero panic.  The multiplier no longer takes part; the parameter is kept so that the
+    signature is the same for every binary operation. -/
+def mod (_m a b : Int) : Option Int := if b = 0 then none else some (rem a b)
 def abs (a : Int) : Int := if a < 0 then negI a else a
 def ceil (m a : Int) : Int :=
   let v := trunc m a
@@ -161,10 +163,16 @@ def mul (m a b : Int) : Int := quo (mulI a b) m
 /-- `f.data.Mul(multiplier[T]()).Div(value.data)`; `none` = divide-by-zero panic of `Uint128.Div` -/
 def div (m a b : Int) : Option Int := if b = 0 then none else some (quo (mulI a m) b)
 def trunc (m a : Int) : Int := mulI (quo a m) m
-def mod (m a b : Int) : Option Int :=
-  match div m a b with
-  | none => none
-  | some q => some (sub a (mul m b (trunc m q)))
+/-- `Int128.Mod` = second result of `Int128.DivMod` for `n ≠ 0`: sign-magnitude around the unsigned remainder
+    (`Uint128.DivMod`, by its contract `u mod n`), which takes the sign of the dividend -/
+def remI (i n : Int) : Int :=
+  let ui := if i < 0 then negI i else i          -- `if i.LessThan(Int128{}) { qSign = -1; rSign = -1; i = i.Neg() }`
+  let un := if n < 0 then negI n else n          -- `if n.LessThan(Int128{}) { qSign = -qSign; n = n.Neg() }`
+  let r := wrap128 (toU ui % toU un)             -- `r = Int128(ru)`
+  if i < 0 then negI r else r                    -- `if rSign < 0 { r = r.Neg() }`
+/-- `return Int[T]{data: f.data.Mod(value.data)}` (before the fix: `f.Sub(value.Mul(f.Div(value).Trunc()))`);
+    `none` = divide-by-zero panic of `Uint128.DivMod` -/
+def mod (_m a b : Int) : Option Int := if b = 0 then none else some (remI a b)
 def neg (a : Int) : Int := negI a
 def abs (a : Int) : Int := absI a
 def ceil (m a : Int) : Int :=
